@@ -520,7 +520,147 @@ func (ct *c37Tree) negFixed(p *Proof, set []uint64, sel int, all bool, st *c37St
 			return err
 		}
 	}
+	if err := ct.negDigestLen(p, set, sel, all, st); err != nil {
+		return err
+	}
+	if ct.vc && ct.distinct {
+		st.excl("vector commitment: whole set relabelled to indices j*2^k with TreeDepth+k (known finding vc-depth-index-relabel)")
+	}
 	return ct.negDepth(p, set, st)
+}
+
+// ---------------------------------------------------------------------------------------------------------
+// path digests of the wrong length
+
+type c37Hint struct {
+	level int
+	sib   uint64 // tree position (at that level) of the sibling the hint stands for
+}
+
+// treePos maps array indices to sorted leaf positions (bit-reversed for vector commitments).
+func (ct *c37Tree) treePos(set []uint64) []uint64 {
+	out := make([]uint64, len(set))
+	for i, x := range set {
+		if ct.vc {
+			x = c37Rev(x, ct.ref.depth)
+		}
+		out[i] = x
+	}
+	sort.Slice(out, func(i, j int) bool { return out[i] < out[j] })
+	return out
+}
+
+// c37HintOrder lists, in path order, which sibling each path digest stands for: level by level, left to right, a
+// sibling is needed whenever the neighbour is not itself in the partial layer (the documented proof layout).
+func c37HintOrder(pos []uint64, depth int) []c37Hint {
+	var order []c37Hint
+	pl := pos
+	for l := 0; l < depth; l++ {
+		var next []uint64
+		for i := 0; i < len(pl); i++ {
+			if i+1 < len(pl) && pl[i+1] == pl[i]^1 {
+				next = append(next, pl[i]/2)
+				i++
+				continue
+			}
+			order = append(order, c37Hint{l, pl[i] ^ 1})
+			next = append(next, pl[i]/2)
+		}
+		pl = next
+	}
+	return order
+}
+
+func c37AllZero(b []byte) bool {
+	for _, x := range b {
+		if x != 0 {
+			return false
+		}
+	}
+	return true
+}
+
+// negDigestLen: a path digest replaced by one of another length (over-long sibling||own, truncated, empty), presented
+// with a WRONG element somewhere below the node that digest is combined with, must not verify; truncated/empty digests
+// must not verify with the true elements either.
+func (ct *c37Tree) negDigestLen(p *Proof, set []uint64, sel int, all bool, st *c37Stats) error {
+	if len(p.Path) == 0 || len(set) == 0 {
+		return nil
+	}
+	order := c37HintOrder(ct.treePos(set), ct.ref.depth)
+	if len(order) != len(p.Path) {
+		st.excl("path layout differs from the harness model of the hint order")
+		return nil
+	}
+	size := ct.ref.size
+	em := ct.elemsMap(set)
+	for h, hint := range order {
+		if !all && h != sel%len(order) {
+			continue
+		}
+		l, owner := hint.level, hint.sib^1
+		// a member below the owner node
+		victim, found := uint64(0), false
+		for _, idx := range set {
+			tp := idx
+			if ct.vc {
+				tp = c37Rev(idx, ct.ref.depth)
+			}
+			if tp>>uint(l) == owner {
+				victim, found = idx, true
+				break
+			}
+		}
+		if !found {
+			return fmt.Errorf("harness: no member below level %d node %d", l, owner)
+		}
+		emWrong := c37CloneMap(em)
+		emWrong[victim] = ct.wrongElem(victim, byte(sel+h)|1)
+		var trueSib []byte
+		if hint.sib < uint64(len(ct.ref.levels[l])) {
+			trueSib = ct.ref.levels[l][hint.sib]
+		}
+		trueOwn := ct.ref.levels[l][owner]
+		with := func(d []byte) *Proof {
+			q := c37CloneProof(p)
+			q.Path[h] = append(crypto.GenericDigest{}, d...)
+			return q
+		}
+		// over-long: sibling || own node hash
+		switch {
+		case 2*size > crypto.MaxHashDigestSize:
+			st.excl("over-long digest not representable for this hash (GenericDigest is at most 64 bytes)")
+		case owner&1 == 1:
+			st.excl("over-long path digest left of a right child (known finding path-digest-length)")
+		default:
+			sb := trueSib
+			if sb == nil {
+				sb = make([]byte, size)
+			}
+			st.negatives++
+			if err := ct.reject(fmt.Sprintf("path[%d] replaced by the %d-byte sibling||own digest, wrong element at %d", h, 2*size, victim), ct.root, emWrong, with(append(append([]byte{}, sb...), trueOwn...))); err != nil {
+				return err
+			}
+		}
+		if trueSib == nil {
+			continue // an absent sibling is genuinely empty
+		}
+		for _, cut := range []int{size - 1, size / 2, 1, 0} {
+			q := with(trueSib[:cut])
+			st.negatives++
+			if err := ct.reject(fmt.Sprintf("path[%d] truncated to %d bytes, wrong element at %d", h, cut, victim), ct.root, emWrong, q); err != nil {
+				return err
+			}
+			if c37AllZero(trueSib[cut:]) {
+				continue // zero padding would reproduce the same bytes
+			}
+			st.negatives++
+			if err := ct.reject(fmt.Sprintf("path[%d] truncated to %d bytes", h, cut), ct.root, em, q); err != nil {
+				return err
+			}
+		}
+	}
+	return nil
 }
 
 // singleLeaf checks ProveSingleLeaf and its byte representations against the reference siblings.
@@ -977,4 +1117,97 @@ func TestVerif_C37_Random(t *testing.T) {
 			}
 		}
 	})
+}
+
+// ---------------------------------------------------------------------------------------------------------
+// known findings (reproduced outside the main search, which excludes these families by construction)
+
+type c37Forgery struct {
+	Sig      string
+	What     string
+	Hash     string
+	VC       bool
+	N        int
+	Genuine  []uint64          // positions the genuine proof was made for
+	Claimed  map[string]string // position -> element (hex) presented to the verifier
+	Depth    uint8
+	Path     []string
+	Verified bool
+}
+
+func TestVerif_C37_Known(t *testing.T) {
+	vk := vkBegin(t, "C37")
+	vk.Rule("hand-built minimal forgeries for the two families the main search excludes: (a) a path digest of twice the hash size left of a right child makes the element's own hash irrelevant; (b) a vector-commitment proof re-labelled to indices j*2^k by claiming TreeDepth+k; each that verifies is reported through the known-findings list; non-trivial = every case; distinct by case")
+	junk := c37Elem("junk element that is not in the array")
+	var cases []c37Forgery
+	run := func(f c37Forgery, ct *c37Tree, elems map[uint64]crypto.Hashable, p *Proof) {
+		f.Hash, f.VC, f.N, f.Depth = ct.ht.String(), ct.vc, len(ct.elems), p.TreeDepth
+		f.Claimed = map[string]string{}
+		for k, v := range elems {
+			f.Claimed[fmt.Sprint(k)] = fmt.Sprintf("%x", []byte(v.(c37Elem)))
+		}
+		for _, d := range p.Path {
+			f.Path = append(f.Path, fmt.Sprintf("%x", []byte(d)))
+		}
+		f.Verified = ct.verify(ct.root, elems, p) == nil
+		cases = append(cases, f)
+		vk.Case(true, fmt.Sprintf("%s/%s/%v/%d/%v/%v", f.Sig, f.Hash, f.VC, f.N, f.Genuine, f.Claimed))
+		vk.Sample(true, f)
+		if f.Verified {
+			vk.Known(f.Sig, f.What, f)
+		}
+	}
+	build := func(ht crypto.HashType, vc bool, n int) *c37Tree {
+		ct, err := c37Build(ht, vc, c37FixedElems(n), true)
+		if err != nil {
+			vk.Failf(c37Replay{Hash: ht.String(), VC: vc, N: n}, "%v", err)
+		}
+		return ct
+	}
+	cat := func(a, b []byte) crypto.GenericDigest { return append(append(crypto.GenericDigest{}, a...), b...) }
+
+	// (a) path-digest-length
+	{
+		ct := build(crypto.Sha512_256, false, 2)
+		p := &Proof{HashFactory: crypto.HashFactory{HashType: ct.ht}, TreeDepth: 1, Path: []crypto.GenericDigest{cat(ct.ref.levels[0][0], ct.ref.levels[0][1])}}
+		run(c37Forgery{Sig: "path-digest-length", What: "Verify accepts a junk element at position 1 of a 2-element sha512_256 tree when Path[0] is the 64-byte leafhash0||leafhash1", Genuine: []uint64{1}}, ct, map[uint64]crypto.Hashable{1: junk}, p)
+	}
+	{
+		ct := build(crypto.Sha256, true, 4)
+		p := &Proof{HashFactory: crypto.HashFactory{HashType: ct.ht}, TreeDepth: 2, Path: []crypto.GenericDigest{cat(ct.ref.levels[0][2], ct.ref.levels[0][3]), append(crypto.GenericDigest{}, ct.ref.levels[1][0]...)}}
+		run(c37Forgery{Sig: "path-digest-length", What: "VerifyVectorCommitment accepts a junk element at index 3 of a 4-element sha256 vector commitment when Path[0] is the 64-byte leaf2||leaf3", Genuine: []uint64{3}}, ct, map[uint64]crypto.Hashable{3: junk}, p)
+	}
+	{
+		ct := build(crypto.Sha512_256, false, 4)
+		p := &Proof{HashFactory: crypto.HashFactory{HashType: ct.ht}, TreeDepth: 2, Path: []crypto.GenericDigest{bytes.Repeat([]byte{0xAB}, 32), cat(ct.ref.levels[1][0], ct.ref.levels[1][1])}}
+		run(c37Forgery{Sig: "path-digest-length", What: "Verify accepts a junk element at position 2 of a 4-element tree with a junk Path[0] when Path[1] is the 64-byte node0||node1 of level 1", Genuine: []uint64{2}}, ct, map[uint64]crypto.Hashable{2: junk}, p)
+	}
+	// (b) vc-depth-index-relabel
+	{
+		ct := build(crypto.Sha512_256, true, 4)
+		p, _, err := ct.prove([]uint64{1})
+		if err != nil {
+			vk.Failf(ct.replay([]uint64{1}), "%v", err)
+		}
+		q := c37CloneProof(p)
+		q.TreeDepth = 3
+		run(c37Forgery{Sig: "vc-depth-index-relabel", What: "VerifyVectorCommitment accepts element 1 of a 4-element vector commitment as index 2 when the proof claims TreeDepth 3 (path has 2 digests)", Genuine: []uint64{1}}, ct, map[uint64]crypto.Hashable{2: ct.elems[1]}, q)
+		p, _, err = ct.prove([]uint64{0, 1, 2, 3})
+		if err != nil {
+			vk.Failf(ct.replay([]uint64{0, 1, 2, 3}), "%v", err)
+		}
+		q = c37CloneProof(p)
+		q.TreeDepth = 3
+		run(c37Forgery{Sig: "vc-depth-index-relabel", What: "the full opening of a 4-element vector commitment verifies as indices {0,2,4,6} with TreeDepth 3", Genuine: []uint64{0, 1, 2, 3}}, ct, map[uint64]crypto.Hashable{0: ct.elems[0], 2: ct.elems[1], 4: ct.elems[2], 6: ct.elems[3]}, q)
+		p, _, err = ct.prove([]uint64{2})
+		if err != nil {
+			vk.Failf(ct.replay([]uint64{2}), "%v", err)
+		}
+		q = c37CloneProof(p)
+		q.TreeDepth = 1
+		run(c37Forgery{Sig: "vc-depth-index-relabel", What: "VerifyVectorCommitment accepts element 2 of a 4-element vector commitment as index 1 when the proof claims TreeDepth 1 (path has 2 digests)", Genuine: []uint64{2}}, ct, map[uint64]crypto.Hashable{1: ct.elems[2]}, q)
+	}
+	for _, f := range cases {
+		fmt.Printf("C37-KNOWN-PROBE sig=%s verified=%v hash=%s vc=%v n=%d genuine=%v claimed=%v depth=%d path=%v\n", f.Sig, f.Verified, f.Hash, f.VC, f.N, f.Genuine, f.Claimed, f.Depth, f.Path)
+	}
 }
